@@ -1,15 +1,41 @@
 #!/venv/bin/python
 """print the markdown table of independently seeded changes (from seeded/*/meta.json)"""
-import glob, json, os
+import glob, json, os, re
+
+
+def key(d):
+    n = os.path.basename(d.rstrip("/"))
+    m = re.match(r"([CX]\d+)_seed(\d+)(.*)", n)
+    return (m.group(1), int(m.group(2)), m.group(3)) if m else (n, 0, "")
+
+
 rows = []
-for d in sorted(glob.glob("/verif/seeded/*/")):
+for d in sorted(glob.glob("/verif/seeded/*/"), key=key):
     m = json.load(open(d + "meta.json"))
     name = os.path.basename(d.rstrip("/"))
     c = m.get("check", {})
-    rows.append((name, m.get("property"), (m.get("summary") or "")[:150].replace("|", "/").replace("\n", " "),
-                 (m.get("needs") or "")[:150].replace("|", "/").replace("\n", " "),
-                 "caught" if c.get("caught") else "MISSED", c.get("command", "").split("./check ")[-1]))
-print("| seeded change | breaks | what was changed | what it needs to manifest | result | check run |")
-print("|---|---|---|---|---|---|")
+    conf = m.get("confirmed", {})
+    if m.get("neutralised_by"):
+        res = "neutralised by a later fix"
+    elif c.get("caught"):
+        res = "caught"
+    else:
+        res = "not by this check" if "_via" not in name and any(os.path.isdir(f"/verif/seeded/{name}_via{x}") for x in ("C04", "C11", "C15", "X03", "X05")) else "MISSED"
+    sig = ""
+    fv = c.get("first_violations") or []
+    if fv and "#" in fv[0]:
+        sig = fv[0].split("#", 1)[1].strip().split(":")[0:3]
+        sig = ":".join(sig)[:70]
+    rows.append((name, m.get("property"), (m.get("summary") or "")[:170].replace("|", "/").replace("\n", " "),
+                 (m.get("needs") or "")[:130].replace("|", "/").replace("\n", " "),
+                 f"{conf.get('demo_exit_unpatched')}/{conf.get('demo_exit_patched')}", res, sig.replace("|", "/")))
+print("| seeded change | check run | what was changed | what it needs to manifest | demo exit (clean/patched) | result | first signature |")
+print("|---|---|---|---|---|---|---|")
 for r in rows:
     print("| " + " | ".join(str(x) for x in r) + " |")
+n = len(rows)
+print()
+print(f"{n} entries; {sum(1 for r in rows if r[5] == 'caught')} caught by the check run, "
+      f"{sum(1 for r in rows if r[5].startswith('neutralised'))} neutralised by later fixes in /repo, "
+      f"{sum(1 for r in rows if r[5] == 'not by this check')} decided by another property's check (see the `_via` entry), "
+      f"{sum(1 for r in rows if r[5] == 'MISSED')} missed.")
